@@ -152,7 +152,8 @@ def handle (j : Json) : R Json := do
     | some c => decodeUCfg c
     | none => pure Einx.Extracted.compileUCfg
   let fc : FCfg ← match fldOpt j "fcfg" with
-    | some c => pure { checkLater := ← boolF c "checkLater", checkBlock := ← boolF c "checkBlock", bindResult := ← boolF c "bindResult" }
+    | some c => pure { checkLater := ← boolF c "checkLater", checkBlock := ← boolF c "checkBlock", bindResult := ← boolF c "bindResult",
+                       nameKeywords := Einx.Extracted.compileFCfg.nameKeywords, skipReserved := Einx.Extracted.compileFCfg.skipReserved }
     | none => pure Einx.Extracted.compileFCfg
   match Einx.Compile.compile cfg fc g with
   | .error e => pure (Json.mkObj [("err", Json.str e)])
